@@ -17,6 +17,7 @@ import (
 	"os"
 	"path/filepath"
 	"regexp"
+	"strconv"
 	"strings"
 	"sync"
 
@@ -210,7 +211,7 @@ func getDrmServer() *app.Server {
 		drmRoot = filepath.Join(workDir(), fmt.Sprintf("vod-drm-%d", os.Getpid()))
 		_ = os.RemoveAll(drmRoot)
 		must(os.MkdirAll(drmRoot, 0o755))
-		for _, a := range []string{"testpic_2s", "testpic_8s", "testpic_6s"} {
+		for _, a := range []string{"testpic_2s", "testpic_8s", "testpic_6s", "bbb_hevc_ac3_8s"} {
 			must(copyTree(filepath.Join(bundledRoot(), a), filepath.Join(drmRoot, a)))
 		}
 		// a pre-encrypted copy of a real asset (the generated assets carry synthetic payloads that cannot be sub-sample encrypted)
@@ -430,6 +431,29 @@ func c10FlowOn(c *Ctx, where string) {
 							c.Count("preenc-requests")
 							if rr.code < 400 || rr.panic != "" {
 								viol("preenc-served", fmt.Sprintf("DRM %s on a pre-encrypted representation is answered %d %s instead of being refused", m.name, rr.code, rr.panic), u, nil)
+							}
+						}
+					}
+					continue
+				}
+				// an asset with video / audio codecs that livesim2 does not encrypt (HEVC, AC-3): either everything is
+				// refused, or everything is protected as announced — never an announced protection over clear media
+				unenc := false
+				for _, rp := range a.Reps {
+					if (rp.ContentType == "video" || rp.ContentType == "audio") && !strings.HasPrefix(rp.Codecs, "avc") && !strings.HasPrefix(rp.Codecs, "mp4a.40") {
+						unenc = true
+					}
+				}
+				if unenc && mres.code >= 400 && mres.code < 500 && mres.panic == "" {
+					c.Count("drm-refused-codec")
+					for _, rp := range a.Reps {
+						if rp.ContentType != "video" && rp.ContentType != "audio" {
+							continue
+						}
+						for _, u := range []string{base + rp.InitURI + q, base + strings.NewReplacer("$Number$", strconv.Itoa(nowMS/a.SegmentDurMS-2), "$Time$", "0").Replace(rp.MediaURI) + q} {
+							rr := drmGet(u)
+							if rr.code < 400 || rr.code >= 500 || rr.panic != "" {
+								viol("unenc-served", fmt.Sprintf("DRM %s is refused for the MPD of an asset with codecs that cannot be encrypted, but this request is answered %d %s", m.name, rr.code, rr.panic), u, nil)
 							}
 						}
 					}
